@@ -41,11 +41,12 @@ fn op(ch: &mut Choices, k: usize) -> String {
         8 => "let w_: u256 = acc.into();\n        let q_ = w_ / 3_u256;\n        let s_: u128 = w_.sqrt();\n        acc = q_.low.into() + s_.into() + i;".into(),
         9 => "let w_: u256 = acc.into();\n        let sq_ = w_.wide_square();\n        let i_: u256 = i.into();\n        let nz_: NonZero<u256> = (i_ + 3).try_into().unwrap();\n        let (_, r_) = core::integer::u512_safe_div_rem_by_u256(sq_, nz_);\n        acc = r_.low.into() + sq_.limb1.into();".into(),
         10 => "let mut arr_: Array<felt252> = array![acc, i, acc + i];\n        let _ = arr_.pop_front();\n        let mut sp_ = arr_.span();\n        acc = *sp_.pop_back().unwrap() * 3 + *sp_.at(0);".into(),
+        12 => "let q_ = core::qm31::QM31Trait::new(5, 1, 2, 3);\n        let r_ = (q_ * core::qm31::qm31_const::<2, 0, 0, 0>() + q_) - core::qm31::qm31_const::<1, 1, 0, 0>();\n        let r_ = r_ / core::qm31::qm31_const::<3, 0, 0, 0>();\n        let [a_, b_, _, _] = core::qm31::QM31Trait::unpack(r_);\n        let a_: felt252 = a_.into();\n        let b_: felt252 = b_.into();\n        acc = acc + a_ + b_ + i;".into(),
         _ => "let w_: u256 = acc.into();\n        let x_: u64 = (w_.low & 0xffffffffffffffff).try_into().unwrap();\n        let y_: u128 = x_.wide_mul(x_);\n        acc = y_.into() - i;".into(),
     }
 }
-pub const N_OPS: usize = 12;
-pub const OP_NAMES: [&str; N_OPS] = ["pedersen", "poseidon", "bitwise", "ec_op", "circuit", "circuit_may_fail", "blake2s", "dict", "u256_div_sqrt", "u512_div", "array", "wide_mul"];
+pub const N_OPS: usize = 13;
+pub const OP_NAMES: [&str; N_OPS] = ["pedersen", "poseidon", "bitwise", "ec_op", "circuit", "circuit_may_fail", "blake2s", "dict", "u256_div_sqrt", "u512_div", "array", "wide_mul", "qm31_const_operand"];
 
 pub struct BuiltinProgram {
     pub source: String,
